@@ -64,7 +64,8 @@ def strat_oc(draw, tier, ks=None):
                         kind=draw(st.sampled_from(["orthogonal",
                                                    "generality",
                                                    "generality"])), ks=ks))
-    return {"table": tab, "fn": draw(st.sampled_from(["oc", "oc_raw"])),
+    return {"table": tab, "fn": draw(st.sampled_from(["oc", "oc_raw",
+                                                      "oc_staged"])),
             "target": draw(target_strategy(len(tab["entries"])))}
 
 
@@ -212,6 +213,17 @@ def _run_single(fn, table, target):
                 require(isinstance(aliases, dict), "ordered_covering does "
                         "not return an aliases dictionary", {})
                 return "ok", out
+            elif fn == "oc_staged":
+                # "update an already minimised table": stop half way, then
+                # carry on from that table with the aliases it came with
+                half = (len(table) + 1) // 2
+                first, al = oc.ordered_covering(table, half, no_raise=True)
+                kept = dict((k, set(v)) for k, v in al.items())
+                out, _ = oc.ordered_covering(first, target, aliases=al)
+                require(dict((k, set(v)) for k, v in al.items()) == kept,
+                        "ordered_covering changed the aliases dictionary it "
+                        "was given", {})
+                return "ok", out
             else:
                 from rig.routing_table import minimise_table
                 if fn["methods"] is None:
@@ -266,6 +278,8 @@ def check_single(case):
                                case["target"], case["fn"])
     routes = set(e[2] for e in original)
     cls = [tab["kind"], "target-none" if case["target"] is None else "target"]
+    if isinstance(case["fn"], str):
+        cls.append("fn-" + case["fn"])
     if kind == "failed":
         return {"documented": True, "nontrivial": False,
                 "classes": cls + ["minimisation-failed"]}
